@@ -790,10 +790,11 @@ def shr2(ctx):
     lib = ctx.lib
     for fname in ("get_deromaniser", "get_romaniser"):
         b = ctx.fn(lib, "asca::alias::parser::AliasParser::" + fname)
-        root = b.hir["body"]
+        # a helper that builds the Transformations is looked through
+        root = hirq.inline_helpers(lib, b, only_if=lambda cb: any(n["e"] == "struct" and n.get("path") == TRANSF_PATH for n in hirq.walk(cb.hir["body"])))
         # the two term lists, in source order
         lists = [(n["pat"]["hid"], n["pat"]["name"], n["ln"]) for n in hirq.walk(root)
-                 if n["e"] == "let" and n["pat"].get("p") == "bind" and n["pat"].get("ty") == VEC_ITEM and n.get("init") is not None
+                 if n["e"] == "let" and not n.get("inl_param") and n["pat"].get("p") == "bind" and n["pat"].get("ty") == VEC_ITEM and n.get("init") is not None
                  and any(m["e"] == "mcall" and (m.get("def") or "").startswith("asca::alias::parser::AliasParser::") for m in hirq.walk(n["init"]))]
         if len(lists) != 2:
             raise AnchorMissing("%s: expected two parsed term lists, found %r" % (fname, [x[1] for x in lists]))
@@ -801,6 +802,16 @@ def shr2(ctx):
         side_of = {lists[0][0]: "input", lists[1][0]: "output"}
         name_of = {h: nm for h, nm, _ in lists}
         lets = {n["pat"]["hid"]: n["init"] for n in hirq.walk(root) if n["e"] == "let" and n["pat"].get("p") == "bind" and n.get("init") is not None and "hid" in n["pat"]}
+        # a binding that merely renames a list (helper parameter) is that list
+        changed = True
+        while changed:
+            changed = False
+            for h, init in lets.items():
+                src_h = hirq.path_hid(init) if hirq.strip(init).get("e") in ("path", "addr", "unary") else None
+                if h not in side_of and src_h in side_of:
+                    side_of[h] = side_of[src_h]
+                    name_of[h] = name_of[src_h]
+                    changed = True
         # closure parameters bound from iterator chains: hid -> (list hid, chain names)
         param_src = {}
         for n in hirq.walk(root):
